@@ -49,7 +49,9 @@ func main() {
 	os.MkdirAll(genDir, 0o755)
 	overlay := map[string]string{}
 	nOps := 0
-	sel := func(x ast.Expr, name string) *ast.SelectorExpr { return &ast.SelectorExpr{X: x, Sel: ast.NewIdent(name)} }
+	sel := func(x ast.Expr, name string) *ast.SelectorExpr {
+		return &ast.SelectorExpr{X: x, Sel: ast.NewIdent(name)}
+	}
 	chanType := func(elem ast.Expr) ast.Expr {
 		return &ast.StarExpr{X: &ast.IndexExpr{X: sel(ast.NewIdent("vsched"), "Chan"), Index: elem}}
 	}
@@ -57,11 +59,74 @@ func main() {
 		fname := pkg.CompiledGoFiles[i]
 		changed := false
 		tmp := 0
-		result := astutil.Apply(f, func(c *astutil.Cursor) bool {
+		var pre, post astutil.ApplyFunc
+		rewriteExpr := func(e ast.Expr) ast.Expr { return astutil.Apply(e, pre, post).(ast.Expr) }
+		rewriteStmt := func(st ast.Stmt) ast.Stmt { return astutil.Apply(st, pre, post).(ast.Stmt) }
+		pre = func(c *astutil.Cursor) bool {
 			switch n := c.Node().(type) {
 			case *ast.SelectStmt:
-				fmt.Fprintln(os.Stderr, "vrewrite: select statements are not supported")
-				os.Exit(1)
+				// { c0 := vsched.SendCase(ch, v); c1 := vsched.RecvCase(ch2); switch vsched.Select(hasDefault, c0, c1) { case 0: ...; case 1: x, ok := c1.Val, c1.Ok; ...; case -1: default body } }
+				if _, ok := c.Parent().(*ast.LabeledStmt); ok {
+					fmt.Fprintln(os.Stderr, "vrewrite: labelled select statements are not supported")
+					os.Exit(1)
+				}
+				tmp++
+				var decls []ast.Stmt
+				var args []ast.Expr
+				var clauses []ast.Stmt
+				hasDefault := false
+				k := 0
+				for _, cl := range n.Body.List {
+					cc := cl.(*ast.CommClause)
+					var body []ast.Stmt
+					idx := -1
+					if cc.Comm == nil {
+						hasDefault = true
+					} else {
+						idx = k
+						name := fmt.Sprintf("verifSel%dc%d", tmp, k)
+						k++
+						var mk ast.Expr
+						switch comm := cc.Comm.(type) {
+						case *ast.SendStmt:
+							mk = &ast.CallExpr{Fun: sel(ast.NewIdent("vsched"), "SendCase"), Args: []ast.Expr{rewriteExpr(comm.Chan), rewriteExpr(comm.Value)}}
+						case *ast.ExprStmt:
+							u, ok := comm.X.(*ast.UnaryExpr)
+							if !ok || u.Op != token.ARROW {
+								fmt.Fprintln(os.Stderr, "vrewrite: unexpected communication clause")
+								os.Exit(1)
+							}
+							mk = &ast.CallExpr{Fun: sel(ast.NewIdent("vsched"), "RecvCase"), Args: []ast.Expr{rewriteExpr(u.X)}}
+						case *ast.AssignStmt:
+							u, ok := comm.Rhs[0].(*ast.UnaryExpr)
+							if !ok || u.Op != token.ARROW || len(comm.Rhs) != 1 {
+								fmt.Fprintln(os.Stderr, "vrewrite: unexpected communication clause")
+								os.Exit(1)
+							}
+							mk = &ast.CallExpr{Fun: sel(ast.NewIdent("vsched"), "RecvCase"), Args: []ast.Expr{rewriteExpr(u.X)}}
+							rhs := []ast.Expr{sel(ast.NewIdent(name), "Val")}
+							if len(comm.Lhs) == 2 {
+								rhs = append(rhs, sel(ast.NewIdent(name), "Ok"))
+							}
+							body = append(body, &ast.AssignStmt{Lhs: comm.Lhs, Tok: comm.Tok, Rhs: rhs})
+						}
+						decls = append(decls, &ast.AssignStmt{Lhs: []ast.Expr{ast.NewIdent(name)}, Tok: token.DEFINE, Rhs: []ast.Expr{mk}})
+						args = append(args, ast.NewIdent(name))
+					}
+					for _, st := range cc.Body {
+						body = append(body, rewriteStmt(st))
+					}
+					clauses = append(clauses, &ast.CaseClause{List: []ast.Expr{&ast.BasicLit{Kind: token.INT, Value: fmt.Sprint(idx)}}, Body: body})
+				}
+				hd := "false"
+				if hasDefault {
+					hd = "true"
+				}
+				call := &ast.CallExpr{Fun: sel(ast.NewIdent("vsched"), "Select"), Args: append([]ast.Expr{ast.NewIdent(hd)}, args...)}
+				c.Replace(&ast.BlockStmt{List: append(decls, &ast.SwitchStmt{Tag: call, Body: &ast.BlockStmt{List: clauses}})})
+				changed = true
+				nOps++
+				return false
 			case *ast.RangeStmt:
 				if !isChan(n.X) {
 					return true
@@ -103,7 +168,8 @@ func main() {
 				return true
 			}
 			return true
-		}, func(c *astutil.Cursor) bool {
+		}
+		post = func(c *astutil.Cursor) bool {
 			switch n := c.Node().(type) {
 			case *ast.ChanType:
 				c.Replace(chanType(n.Value))
@@ -150,7 +216,8 @@ func main() {
 				}
 			}
 			return true
-		})
+		}
+		result := astutil.Apply(f, pre, post)
 		if !changed {
 			continue
 		}
